@@ -752,7 +752,17 @@ func c18Body(rc *RunCtx) {
 				d.inWB = wb
 				fired := ""
 				if failFirst && w == 0 {
-					if simrt.ChooseF(2) == 0 {
+					switch kind := simrt.ChooseF(3); {
+					case kind == 2:
+						disk.FailRename = func(op, np string) error {
+							if fired == "" && np == d.path {
+								fired = "rename " + op + " -> " + np + ": permission denied"
+								simrt.Fault("writeback_rename_failure")
+								return syscall.EACCES
+							}
+							return nil
+						}
+					case kind == 0:
 						disk.FailOpen = func(p string, flag int) error {
 							if fired == "" && p != d.path && flag&(simos.O_WRONLY|simos.O_RDWR) != 0 {
 								fired = "open " + p + ": too many open files"
@@ -761,7 +771,7 @@ func c18Body(rc *RunCtx) {
 							}
 							return nil
 						}
-					} else {
+					default:
 						disk.FailWrite = func(p string) error {
 							if fired == "" && p != d.path {
 								fired = "write " + p + ": no space left on device"
@@ -779,7 +789,7 @@ func c18Body(rc *RunCtx) {
 				simrt.SetOp(0)
 				d.inWB = nil
 				d.overlapNext = nil
-				disk.FailOpen, disk.FailWrite = nil, nil
+				disk.FailOpen, disk.FailWrite, disk.FailRename = nil, nil, nil
 				nb, _ := disk.ReadRaw(d.path)
 				wb.New = string(nb)
 				if fired != "" {
